@@ -148,6 +148,9 @@ func (w *runWorld) keyDriver(id, nops int) {
 		if i == 0 && c.S.PlanP(700) {
 			k = 0 // most scripts start by adding a key
 		}
+		if w.rcv != nil && k >= 10 && c.S.PlanP(500) {
+			k = c.S.Plan(10) // the reference-counted variant concentrates on AddKeyRef / Release / RemoveKey
+		}
 		switch {
 		case k < 5:
 			if w.rcv != nil {
